@@ -95,6 +95,8 @@ class Regions:
         region : `~regions.Region`
             The region to insert.
         """
+        if not isinstance(region, Region):
+            raise TypeError('Input region must be a Region object')
         self.regions.insert(index, region)
 
     def reverse(self):
